@@ -378,7 +378,7 @@ class ConfigParser(object):
   """Performs initial stage (tokenizing) of generating a potential model
   suitable for tabulation functions."""
 
-  _signature_re = re.compile(r"^([a-zA-Z]\w*?)\((.*)\)")
+  _signature_re = re.compile(r"^([a-zA-Z]\w*?)\((.*)\)$")
   _parameter_name_re = re.compile(r"^[a-zA-Z_]\w*$")
 
   # Map of sections relevant to ConfigParser
